@@ -63,6 +63,9 @@ def message_pool(remote_as, r=None):
         # capabilities naming address families / values the agent has no name for: they are ignored, the OPEN stands
         # ADD-PATH for IPv4 unicast, Send/Receive = both (a family and a value the agent does have names for)
         ('open_addpath_ipv4', frame(1, open_body(remote_as, 90, caps=std_caps(remote_as) + cap(69, bytes([0, 1, 1, 3]))))),
+        # capabilities the agent has no decoder for (73 FQDN, 66, 67 with values): reported by code, the OPEN stands
+        ('open_unknown_caps', frame(1, open_body(remote_as, 90, caps=std_caps(remote_as) + cap(73, b'\x04host\x00') + cap(66, bytes([1, 2, 3]))
+                                                + cap(67, b'')))),
         ('open_addpath_unknown_family', frame(1, open_body(remote_as, 90, caps=std_caps(remote_as) + cap(69, bytes([0, 1, 132, 3]))))),
         ('open_addpath_action0', frame(1, open_body(remote_as, 90, caps=std_caps(remote_as) + cap(69, bytes([0, 1, 1, 0, 0, 2, 1, 4]))))),
         ('open_llgr_extnh_unknown', frame(1, open_body(remote_as, 90, caps=std_caps(remote_as) + cap(71, bytes([0, 99, 9, 0, 0, 0, 10]) * 2)
